@@ -235,6 +235,10 @@ func genEntityOpt(r *vh.Rand, second bool, forcedName string) *entityDecl {
 	es := nameSet{}
 	for k := r.Range(0, 3); k > 0; k-- {
 		name := es.fresh(func() string {
+			if !second && r.Chance(3) {
+				// its oneof option "type" sits next to the proto oneof "type" of the wrapper
+				return "Type"
+			}
 			if r.Chance(70) {
 				return vh.Pick(r, []string{"Create", "Update", "Archive", "Delete", "Created", "DoThing", "Renamed", "V2Migrated"})
 			}
@@ -538,10 +542,6 @@ var negClasses = []negClass{
 		// a one-word lower-case event: the option ToLowerCamel(name) and the nested message share the name
 		d.Events = append(d.Events, eEvent{Name: vh.Pick(r, []string{"create", "archived", "x"})})
 	}},
-	{"event-named-type", 6, func(r *vh.Rand, d *entityDecl) {
-		// the option "type" next to the proto oneof "type" of the wrapper
-		d.Events = append(d.Events, eEvent{Name: "Type"})
-	}},
 	{"dup-event-field", 6, func(r *vh.Rand, d *entityDecl) {
 		d.Events = append(d.Events, eEvent{Name: "WithTwins", Fields: []uField{plainString("twin"), plainString("twin")}})
 	}},
@@ -665,7 +665,7 @@ func runC17(cfg *vh.Config) error {
 		if c.errc == 6 && r.Chance(25) {
 			// the link step sees the whole file: the fault in the second entity of a file
 			first := genEntityOpt(r, false, "")
-			for first.pathKeyReserved() || first.summaryUpsert() {
+			for first.pathKeyReserved() || first.summaryUpsert() || first.eventNamedType() {
 				first = genEntityOpt(r, false, "")
 			}
 			first.Commands, first.Summaries = nil, nil
@@ -723,6 +723,8 @@ func runC17(cfg *vh.Config) error {
 					sig = "C17 entity name ending in a capital fails to compile: type <Name>State/Event/EventType not found (entity.go naming)"
 				case errc == 6 && anyEnt(d, (*entityDecl).pathKeyReserved):
 					sig = "C17 primary/shard key named page or query collides with the pagination field acceptQuery adds to the List/Events request: link error symbol already defined"
+				case errc == 6 && anyEnt(d, (*entityDecl).eventNamedType):
+					sig = "C17 event whose oneof option is named type collides with the proto oneof type of the EventType wrapper: link error symbol already defined"
 				case errc == 6 && anyEnt(d, (*entityDecl).summaryUpsert):
 					sig = "C17 summary field named upsert collides with the metadata field acceptSummaryTopics prepends: link error symbol already defined"
 				}
@@ -836,6 +838,15 @@ func (d *entityDecl) pathKeyReserved() bool {
 			if n := strcase.ToSnake(k.Name); n == "page" || n == "query" {
 				return true
 			}
+		}
+	}
+	return false
+}
+
+func (d *entityDecl) eventNamedType() bool {
+	for _, ev := range d.Events {
+		if strcase.ToSnake(strcase.ToLowerCamel(ev.Name)) == "type" {
+			return true
 		}
 	}
 	return false
